@@ -555,7 +555,8 @@ void CheckClass::copyconstructors()
             }
         }
 
-        std::set<const Token*> copiedVars;
+        // in the order of the tokens so the findings are reported in source order
+        std::vector<const Token*> copiedVars;
         const Token* copyCtor = nullptr;
         for (const Function &func : scope->functionList) {
             if (func.type != FunctionType::eCopyConstructor)
@@ -571,7 +572,7 @@ void CheckClass::copyconstructors()
                 while (Token::Match(tok, "%name% (")) {
                     if (allocatedVars.find(tok->varId()) != allocatedVars.end()) {
                         if (tok->varId() && Token::Match(tok->tokAt(2), "%name% . %name% )"))
-                            copiedVars.insert(tok);
+                            copiedVars.push_back(tok);
                         else if (!Token::Match(tok->tokAt(2), "%any% )"))
                             allocatedVars.erase(tok->varId()); // Assume memory is allocated
                     }
@@ -583,7 +584,7 @@ void CheckClass::copyconstructors()
                     (Token::Match(tok, "%var% = %name% (") && (mSettings->library.getAllocFuncInfo(tok->tokAt(2)) || mSettings->library.getReallocFuncInfo(tok->tokAt(2))))) {
                     allocatedVars.erase(tok->varId());
                 } else if (Token::Match(tok, "%var% = %name% . %name% ;") && allocatedVars.find(tok->varId()) != allocatedVars.end()) {
-                    copiedVars.insert(tok);
+                    copiedVars.push_back(tok);
                 }
             }
             break;
